@@ -29,6 +29,7 @@ RULE = (
     "identity, reversed, rotation) x (in memory / CSV text) x (dense / sparse with allow_missing_values); plus "
     "every to_df layout (index or columns, dim_to_columns for each dim, sparse; C / Fortran / strided value buffers) checked row by row and re-imported; every (duplicated row with another value, other row dropped) pair, which must be refused. "
     "one 182 x 182 array (more than 32767 entries; 260 x 260 thorough) in three layouts. Non-trivial = array with >= 2 entries. Distinct by construction."
+    " Also: duplicates spelled as text in typed dimensions, a float-item dimension, categorical label columns, infinite entries, a complete NaN line in the wide export."
 )
 ASSUMPTIONS = [
     "values are distinct non-integer floats that cannot be mistaken for items (precondition of the items-only style)",
